@@ -64,4 +64,44 @@ def auth_methods():
     return "\n".join(out) + "\n"
 
 
-GENERATORS = {"auth_methods": auth_methods}
+def config_statics():
+    """N6: lazy_static literals of global/config.rs that the configuration check uses -> consts with the same values"""
+    cfg = open(os.path.join(REPO, "src/global/config.rs")).read()
+    out = ["// ---- generated from the lazy_static! block of src/global/config.rs on this run (rule N6) ----"]
+    for name in ["DB_VERSION_KEY", "PROTOCOL_VERSION_KEY", "BITCOIN_RPC_NETWORK_KEY", "EVM_RECORD_TRACES_KEY"]:
+        m = re.search(r"static ref %s: String = (\"[^\"]*\")\.to_string\(\);" % name, cfg)
+        if not m:
+            raise GenError("lazy_static %s not found" % name)
+        out.append("pub const %s: &'static str = %s;" % (name, m.group(1)))
+    for name in ["DB_VERSION", "PROTOCOL_VERSION"]:
+        m = re.search(r"static ref %s: u32 = (\d+);" % name, cfg)
+        if not m:
+            raise GenError("lazy_static %s not found" % name)
+        out.append("pub const %s: u32 = %s;" % (name, m.group(1)))
+    # distinctness of the four key texts (needed so that writing one key does not disturb another): witnesses computed here
+    keys = {}
+    for ln in out:
+        m = re.match(r"pub const (\w+_KEY): &'static str = \"([^\"]*)\";", ln)
+        if m:
+            keys[m.group(1)] = m.group(2)
+    out.append("pub proof fn lemma_config_keys_distinct()")
+    names = sorted(keys)
+    pairs = [(a, b) for i, a in enumerate(names) for b in names[i + 1:]]
+    out.append("    ensures " + ", ".join("%s@ != %s@" % (a, b) for a, b in pairs) + ",")
+    out.append("{")
+    for a in names:
+        out.append("    reveal_strlit(\"%s\");" % keys[a])
+    for a, b in pairs:
+        ka, kb = keys[a], keys[b]
+        if ka == kb:
+            raise GenError("configuration keys %s and %s have the same text" % (a, b))
+        if len(ka) != len(kb):
+            out.append("    assert(%s@.len() != %s@.len());" % (a, b))
+        else:
+            i = [k for k in range(len(ka)) if ka[k] != kb[k]][0]
+            out.append("    assert(%s@[%d] != %s@[%d]);" % (a, i, b, i))
+    out.append("}")
+    return "\n".join(out) + "\n"
+
+
+GENERATORS = {"auth_methods": auth_methods, "config_statics": config_statics}
